@@ -4,8 +4,9 @@ one complete run; every TTL spelling denotes the same number of seconds.
 proof: lean/CashewsVerif/Props/C02.lean (invariants of the simple-cache / iterator state machines over the ideal
        TTL map, for every history, script, condition and TTL function; duration-string parser against the unit
        table regenerated from cashews/ttl.py by harness/ttlgen.py on every run).
-tie:   generated call histories (argument tuples x every call form x time advances x scripts x conditions x TTL
-       spellings) run on the real `Cache('mem://')` through `cache.cache` / `cache.iterator` under the virtual
+tie:   generated call histories (argument tuples - among them tuples that are equal but different arguments:
+       1 / True / 1.0 ... - x every call form x time advances x scripts x conditions x TTL spellings x, for the iterator,
+       consumers that drain / stop early / are cancelled) run on the real `Cache('mem://')` through `cache.cache` / `cache.iterator` under the virtual
        clock and on the model driver; compared per call:  impl == model (correspondence)  and  impl satisfies the
        property statement (spec oracle in harness/decorhist.py).  TTL parser: enumerated table impl / model / meaning.
        Scripted failures come from a family of exception classes x payload shapes (plain, message built in __init__,
@@ -33,10 +34,14 @@ TRUSTED = [
     "{simple,iterator}.py, cashews/ttl.py, cache_condition.py, wrapper/time_condition.py, tied to the code by this run's correspondence",
     "the decorator models are written over the ideal TTL map (Spec/TtlMap.lean), which C01 proves the in-memory backend refines",
     "the wrapped function is a script of outcomes with durations (hypothesis-free: theorems quantify over every script)",
-    "key derivation from the bound arguments is C08's subject: here every call form of the same bound arguments is checked to hit the same entry",
+    "key derivation from the bound arguments is C08's subject: here every call form of the same bound arguments is checked to hit the same entry, "
+    "and argument tuples that are == / hash-equal but render to different keys (1 / True / 1.0, 0 / False / 0.0, 2 / 2.0) are different bound "
+    "arguments (identity of a bound argument = its type and value, which is what the key formatter renders)",
     "harness: virtual clock (harness/vtime.py), canonicalisation of results, the Python spec oracle (harness/decorhist.py), "
     "the AST reader of _STR_TO_DELTA (harness/ttlgen.py)",
-    "sequential calls only (single-flight / concurrency is C07); the consumer drains every stream without letting time pass during a replay",
+    "sequential calls only (single-flight / concurrency is C07); a stream is drained, or its consumer stops after n elements (aclose / dropped and "
+    "finalised by the event loop / cancelled between two items) or is cancelled while the generator works on a given step; every dropped stream "
+    "is finalised before the next call starts; no time passes during a replay",
     "an exception is observed through type, args, str(), instance attributes, notes and __cause__ (type and args); __traceback__ and "
     "__context__ are not compared; the model's payload id of an exception stands for exactly this observation",
     "with secret= (pickling serializer) only exception shapes that pickle itself rebuilds faithfully are scripted (plain class, plain class "
@@ -45,7 +50,9 @@ TRUSTED = [
 
 PARTIAL = ("not modelled / not sampled: ttl=None and ttl=0 ('no ttl'; theorems treat 0 as such), non-dyadic TTLs, non-ASCII duration strings "
            "(str.isdigit/lower/strip are modelled on ASCII), a condition callable that returns an exception instance for a normal result, "
-           "a function that *returns* an exception instance, consumers that abandon a stream or let time pass while reading a replay, "
+           "a function that *returns* an exception instance, consumers that let time pass while reading a replay or leave a stream suspended while "
+           "other calls are made (interleaved consumers are C07's kind of history), cancellation of a call of the basic decorator, "
+           "equal-but-different arguments beyond int / bool / float (IntEnum members, Decimal), "
            "the legacy marker value True, tags=, lock=, upper=; exceptions that are not `Exception`s (CancelledError, KeyboardInterrupt), "
            "__traceback__ / __context__ of a replayed exception, exception classes that do not survive pickling under secret=; "
            "exception shape 8 (an instance that is falsy: the pinned tree returns it instead of raising it - finding reported in "
@@ -97,15 +104,36 @@ def advances(rng, t):
     return rng.choice([1, 1, t - 1 if t > 1 else 1, t, t, t + 1, max(1, t // 2), 2 * t, 4, 8])
 
 
+def key_palette(rng, nkeys):
+    """the bound-argument tuples (key ids into dh.ARGS) one case calls its function with, and a preferred call form.
+    2 in 5 cases draw them from ONE equality class - tuples that are == / hash-equal but are different arguments
+    (1 / True / 1.0, 0 / False / 0.0, 2 / 2.0): every pair of them, in both orders, has to be kept apart; such cases
+    mostly stick to one call form (whatever confuses equal values does so for one spelling of the call)."""
+    r = rng.random()
+    if r < 0.4:
+        cls = rng.choice(dh.EQ_CLASSES + [dh.EQ_CLASSES[0]])
+        keys = rng.sample(cls, min(len(cls), max(2, nkeys)))
+        return keys, rng.randrange(6), 0.7
+    if r < 0.5:
+        return rng.sample(range(len(dh.ARGS)), min(len(dh.ARGS), max(2, nkeys))), rng.randrange(6), 0.5
+    return list(range(nkeys)), 0, 0.0
+
+
+def draw_call(rng, palette):
+    keys, form, stick = palette
+    return ["call", rng.choice(keys), form if rng.random() < stick else rng.randrange(6)]
+
+
 def gen_simple(rng, iterish=False) -> dict:
     ttl, t = ttl_choices(rng)
     cond = rng.choice(SIMPLE_CONDS)
     nops = rng.randint(2, 14)
     nkeys = rng.choice([1, 2, 2, 4])
+    palette = key_palette(rng, nkeys)
     ops = []
     for _ in range(nops):
         if rng.random() < 0.62:
-            ops.append(["call", rng.randrange(nkeys), rng.randrange(6)])
+            ops.append(draw_call(rng, palette))
         else:
             ops.append(["adv", advances(rng, t)])
     config = rng.choice(["plain", "plain", "secret"])
@@ -120,6 +148,14 @@ def gen_simple(rng, iterish=False) -> dict:
             "script": script, "ops": ops}
 
 
+def consumer(rng):
+    """a consumer that does not read the stream to its end: stops after n elements (closing it, dropping it, or being
+    cancelled between two items) or is cancelled while the generator works on step n"""
+    if rng.random() < 0.6:
+        return ["take", rng.choice([1, 2, 2, 3, 3, 4]), rng.randrange(3)]
+    return ["cancel", rng.choice([0, 1, 2, 2, 3, 4])]
+
+
 def gen_iter(rng) -> dict:
     ttl, t = ttl_choices(rng)
     if ttl.startswith("cr:"):
@@ -127,10 +163,15 @@ def gen_iter(rng) -> dict:
     cond = rng.choice(ITER_CONDS)
     nops = rng.randint(2, 12)
     nkeys = rng.choice([1, 1, 2, 3])
+    palette = key_palette(rng, nkeys)
+    early = rng.choice([0.0, 0.0, 0.3, 0.6])       # how often a consumer of this case stops before the end
     ops = []
     for _ in range(nops):
         if rng.random() < 0.62:
-            ops.append(["call", rng.randrange(nkeys), rng.randrange(6)])
+            op = draw_call(rng, palette)
+            if rng.random() < early:
+                op.append(consumer(rng))
+            ops.append(op)
         else:
             ops.append(["adv", advances(rng, t)])
     config = rng.choice(["plain", "plain", "secret"])
@@ -197,6 +238,40 @@ def shrink(case, pred):
                 small = cand
                 progress = True
                 break
+    # a call that executed and the script entry it consumed, together (the later executions keep their behaviour)
+    progress = True
+    while progress:
+        progress = False
+        trace = dh.execute(small)[0]
+        if trace and trace[0].get("crash"):
+            break
+        n = 0
+        for i, t in enumerate(trace):
+            if "key" not in t or not t.get("execs"):
+                continue
+            cand = dict(small)
+            cand["ops"] = small["ops"][:i] + small["ops"][i + 1:]
+            cand["script"] = small["script"][:n] + small["script"][n + 1:]
+            n += 1
+            if pred(cand):
+                small, progress = cand, True
+                break
+    # consumers: drain where stopping early plays no part, else the plainest way of stopping, as early as possible
+    for i, op in enumerate(small["ops"]):
+        if len(op) > 3 and op[3]:
+            options = [op[:3]]
+            if op[3][0] == "take":
+                options += [op[:3] + [["take", n, how]] for n in range(1, op[3][1] + 1) for how in range(0, op[3][2] + 1)]
+            else:
+                options += [op[:3] + [["cancel", n]] for n in range(0, op[3][1])]
+            for o in options:
+                if o == op:
+                    break
+                cand = dict(small)
+                cand["ops"] = small["ops"][:i] + [o] + small["ops"][i + 1:]
+                if pred(cand):
+                    small = cand
+                    break
     ncalls = sum(1 for o in small["ops"] if o[0] == "call")
     full = small["script"]
     small = dict(small)
@@ -211,6 +286,10 @@ def signature_of(case, trace, idx, msg) -> str:
         return "replayed-exception-differs-from-raised"
     if "returned:" in msg or "yielded:" in msg:
         return "exception-returned-instead-of-raised"
+    if "compare equal to but are not the arguments" in msg:
+        return "answered-with-result-of-equal-but-different-arguments"
+    if "a run that never ended" in msg:
+        return "iter-replays-interrupted-run"
     if case["kind"] == "iter":
         if "raised" in msg:
             return "decorator-raises"
@@ -297,7 +376,16 @@ def describe_case(case) -> list[str]:
             fs = dh.forms(case["sig"], a, b)
             args, kwargs = fs[op[2] % len(fs)]
             call = ", ".join([repr(x) for x in args] + [f"{k}={v!r}" for k, v in kwargs.items()])
-            out.append(("await f(%s)" if simple else "[x async for x in f(%s)]") % call)
+            mode = op[3] if len(op) > 3 and op[3] and not simple else None
+            if mode is None:
+                out.append(("await f(%s)" if simple else "[x async for x in f(%s)]") % call)
+            elif mode[0] == "take":
+                how = ["break out of the loop and `await stream.aclose()`", "break out of the loop and drop the stream (the event loop finalises it)",
+                       "the consumer's task is cancelled while it handles that item (the stream goes with its frame)"][mode[2]]
+                out.append(f"async for x in f({call}): ...   # the consumer receives {mode[1]} element(s), then: {how}")
+            else:
+                out.append(f"async for x in f({call}): ...   # the consumer's task is cancelled while the generator works on its step {mode[1]} "
+                           f"(after {mode[1]} item(s)); on a replay nothing suspends and it reads everything")
     return out
 
 
@@ -311,6 +399,14 @@ def describe_ttl(ttl: str) -> str:
 
 # ----------------------------------------------------------------------------------------------
 # interesting states
+def eq_pair(k_first, k_second) -> str:
+    """'int->bool' ...: types of the first component in which two ==-equal argument tuples differ, in call order"""
+    for x, y in zip(dh.ARGS[k_first], dh.ARGS[k_second]):
+        if type(x) is not type(y):
+            return f"{type(x).__name__}->{type(y).__name__}"
+    return "same"
+
+
 def interesting(case, trace, log) -> set[str]:
     out = set()
     if trace and trace[0].get("crash"):
@@ -341,6 +437,15 @@ def interesting(case, trace, log) -> set[str]:
                             out.add("re-executed-exactly-at-deadline")
                 if cond.startswith("fn:") and cond[3:][dh.KIND_IDX[x["kind"]]] in "yX" and not x["kind"].startswith("e"):
                     out.add("truthy-non-bool-condition")
+                for y in log[:seen - 1]:
+                    # a fresh stored result for EQUAL BUT DIFFERENT arguments (1 / True / 1.0 ...) exists: this call must not see it
+                    if y["key"] != k and y["key"] in dh.EQ_CLASS_OF.get(k, ()) and "t" in y and dh.cond_accepts_spec(cond, y["kind"], y["dur"]):
+                        tt = dh.ttl_ticks_spec(ttl, y["key"], y["kind"])
+                        if tt == 0 or now - y["t"] < tt:
+                            same_form = first_form.get(y["n"]) == op[2]
+                            out.add("executed-beside-fresh-result-of-equal-but-different-arguments" + (":same-call-form" if same_form else ""))
+                            if same_form:
+                                out.add("equal-but-different:" + eq_pair(y["key"], k))
             else:
                 src = [y for y in log[:seen] if y["key"] == k and y.get("res") == got]
                 if src:
@@ -368,16 +473,42 @@ def interesting(case, trace, log) -> set[str]:
     else:
         seen = 0
         tt_of = lambda k: dh.ttl_ticks_spec(ttl, k, "n")  # noqa: E731
-        for t in trace:
+        forms_of = {}
+        for t, op in zip(trace, case["ops"]):
             if "key" not in t:
                 continue
             got, how = t["impl"].rsplit(" ", 1)
             k, now = t["key"], t["now"]
             items = [] if got == "-" else got.split(",")
+            mode = t.get("mode")
             if how == "run":
                 x = log[seen]
                 seen += 1
+                forms_of[x["n"]] = op[2]
                 kinds = x["kinds"]
+                for y in log[:seen - 1]:
+                    if y["key"] == k and not y["complete"] and now - y["start"] < tt_of(k):
+                        yacc = all(dh.cond_accepts_spec(cond, kd, 0, item=True) for kd in y["kinds"])
+                        if y["ended"] == "abandoned" and len(y["outs"]) >= 2 and yacc:
+                            out.add("run-again-within-ttl-of-a-run-abandoned-after-2+-accepted-items")
+                        if y["ended"] == "cancelled" and len(y["outs"]) >= 1 and yacc:
+                            out.add("run-again-within-ttl-of-a-run-cancelled-after-1+-accepted-items")
+                    if (y["key"] != k and y["key"] in dh.EQ_CLASS_OF.get(k, ()) and y["complete"] and y["outs"]
+                            and now - y["start"] < tt_of(y["key"]) and forms_of.get(y["n"]) == op[2]
+                            and all(dh.cond_accepts_spec(cond, kd, 0, item=True) for kd in y["kinds"])):
+                        out.add("run-beside-cached-run-of-equal-but-different-arguments:same-call-form")
+                        out.add("equal-but-different:" + eq_pair(y["key"], k))
+                if x["ended"] == "abandoned":
+                    out.add("run-abandoned:" + ["aclose", "dropped-and-finalised", "consumer-cancelled-between-items"][mode[2]])
+                    if len(x["outs"]) == len(dh.parse_run(case["script"][x["n"]])[0]):
+                        out.add("run-abandoned-after-its-last-item")
+                if x["ended"] == "cancelled":
+                    out.add("run-cancelled-in-final-stretch" if len(x["outs"]) == len(dh.parse_run(case["script"][x["n"]])[0])
+                            else "run-cancelled-between-items")
+                if mode and x["complete"]:
+                    out.add("early-consumer-but-run-ended-first")
+                if not x["complete"]:
+                    continue            # the states below are about runs that ended by themselves
                 acc = [dh.cond_accepts_spec(cond, kd, 0, item=True) for kd in kinds]
                 dur = x.get("end", x["start"]) - x["start"]
                 if acc and not all(acc) and any(acc[: len(acc) - 1]):
@@ -397,7 +528,11 @@ def interesting(case, trace, log) -> set[str]:
                     if y["key"] == k and ychunks > len(kinds) and all(acc) and kinds and dur < tt_of(k):
                         if y.get("end", 0) + tt_of(k) > x.get("end", 0):
                             out.add("shorter-run-stored-while-chunks-of-a-longer-run-may-be-alive")
+                            if not y["complete"]:
+                                out.add("shorter-run-stored-over-chunks-left-by-an-interrupted-run")
             else:
+                if mode and mode[0] == "take":
+                    out.add("consumer-stops-early-on-a-replay")
                 if any(it == "n" or it.startswith("f") for it in items[:-1]):
                     out.add("replay-with-falsy-non-last-item")
                 if items and items[-1].startswith("x"):
@@ -405,7 +540,7 @@ def interesting(case, trace, log) -> set[str]:
                     shape = dh.exc_of_kind(dh.kind_of(items[-1]))[1]
                     if shape:
                         out.add("replay-ending-in-exception-shape:" + dh.SHAPES[shape][0])
-                src = [y for y in log[:seen] if y["key"] == k and y["outs"] == items]
+                src = [y for y in log[:seen] if y["key"] == k and y["complete"] and y["outs"][:len(items)] == items]
                 if src and now - src[-1]["start"] == tt_of(k) - 1:
                     out.add("replay-one-tick-before-marker-deadline")
                 if src and any(len(y["outs"]) > len(items) and y["n"] < src[-1]["n"] for y in log[:seen] if y["key"] == k):
@@ -598,12 +733,17 @@ def run(chk: Check) -> int:
     chk.coverage.update({
         "evaluations": evaluations + tbl["n"],
         "distinct_nontrivial": len(distinct),
-        "rule": "call histories of 2..14 ops (calls over up to 4 bound-argument tuples in every positional/keyword call form of two "
-                "signatures, time advances around the ttl) x scripted outcomes with durations (failures: 3 exception classes x %d payload "
+        "rule": "call histories of 2..14 ops (calls over up to 6 of the bound-argument tuples of decorhist.ARGS - 2 in 5 cases all from one class of "
+                "tuples that are == but different arguments: 1/True/1.0, 0/False/0.0, 2/2.0, mostly in one call form, both orders - in every "
+                "positional/keyword call form of two signatures, time advances around the ttl; iterator calls read by a consumer that drains the "
+                "stream, stops after 1..4 elements (aclose / drop / cancelled between items) or is cancelled while the generator works on step "
+                "0..4) x scripted outcomes with durations (failures: 3 exception classes x %d payload "
                 "shapes, compared by complete observation) x 17 (simple) / 11 (iterator) conditions x " % len(dh.GENERATED_SHAPES) +
                 "all TTL spelling families x plain/signed+pickled mem:// x key templates, generated from VERIF_SEED; a case is "
                 "non-trivial iff it reached at least one state listed under interesting_states_cases; distinct = distinct case dicts",
         "samples": samples,
+        "argument_alphabet": [repr(t) for t in dh.ARGS],
+        "equal_but_different_classes": [[repr(dh.ARGS[i]) for i in ids] for ids in dh.EQ_CLASSES],
         "corpus_cases": ncorpus,
         "history_cases": evaluations,
         "op_histogram": hist,
